@@ -188,6 +188,18 @@ let () =
             | "@prog" :: id :: _ -> cur := fresh (); (!cur).id <- id
             | "@wf" :: id :: _ -> cur := fresh (); (!cur).id <- id; (!cur).wf <- true
             | "probe" :: r -> run_asmsel_line r
+            | "cg" :: id :: rest ->
+                (* cg <id> <root,root,..> <f:g,g,..> ... (all names hex) *)
+                (match rest with
+                 | roots :: edges ->
+                     let names s = List.filter_map (fun x -> if x = "" then None else Some (explode (unhex x))) (String.split_on_char ',' s) in
+                     let t = List.map (fun e -> match String.split_on_char ':' e with
+                         | [f; gs] -> (explode (unhex f), names gs)
+                         | [f] -> (explode (unhex f), [])
+                         | _ -> ([], [])) edges in
+                     let r = in_use t (names roots) in
+                     Printf.printf "@cgr %s %s\n" id (String.concat "," (List.map (fun x -> hex (implode x)) r))
+                 | [] -> ())
             | "@end" :: _ -> (if (!cur).wf then run_wf !cur else run_prog !cur); cur := fresh ()
             | "sym" :: n :: a :: _ -> (!cur).syms <- (unhex n, int_of_string a) :: (!cur).syms
             | "port" :: w :: r :: s :: _ -> (!cur).ports <- (int_of_string w, int_of_string r, int_of_string s) :: (!cur).ports
